@@ -4,6 +4,7 @@ from __future__ import annotations
 import itertools
 import logging
 import random
+import threading
 from collections import Counter
 from fractions import Fraction
 from pathlib import Path
@@ -231,15 +232,20 @@ class C13(Prop):
         L.datetime = FakeDT
         AD.datetime = FakeDT
         L.print = AD.print = lambda *a, **k: None        # silent=False runs: the console is a sink
-        # Waste.created_at's default factory captured the real datetime.now when the class was built: give the
-        # DEFAULT (and only the default - an explicit created_at, whoever passes it, is left alone) the fake clock
+        # Waste.created_at's default factory captured the real datetime.now when the class was built.  A created_at the
+        # caller did not pass is therefore produced by the class's own default, whatever that is, and then TRANSLATED to
+        # the harness clock keeping its flavour (naive / aware, and in which zone) and its distance from "now": an
+        # explicit created_at, whoever passes it, is left alone, and a changed default (aware, shifted) stays visible
         if not getattr(L.Waste.__init__, "_vf_clock", False):
             real_init = L.Waste.__init__
 
             def __init__(w, *a, **k):
-                if len(a) < 4 and "created_at" not in k:
-                    k["created_at"] = prop.clock.now()
                 real_init(w, *a, **k)
+                if len(a) < 4 and "created_at" not in k:
+                    try:
+                        w.created_at = prop._to_harness_clock(w.created_at)
+                    except Exception:  # noqa: whatever the default produced stays as it is
+                        pass
             __init__._vf_clock = True
             L.Waste.__init__ = __init__
         self.records = []
@@ -258,6 +264,27 @@ class C13(Prop):
         self.hangs_seen = 0
         self.file = L.__file__
         self.facts = e3_lysosome.extract(REPO)[1]
+
+    def _to_harness_clock(self, v):
+        """a datetime produced by `Waste`'s default factory, moved from the clock it was read from (the real one, or
+        the harness's if the factory looks `datetime` up at call time) to the harness clock"""
+        import datetime as _dt
+        if not isinstance(v, _dt.datetime):
+            return v
+        fake = self.clock.now()
+        if v.tzinfo is not None and v.utcoffset() is not None:
+            fake_v = fake.replace(tzinfo=_dt.timezone.utc).astimezone(v.tzinfo)
+            real_v = _dt.datetime.now(v.tzinfo)
+        else:
+            fake_v, real_v = fake.replace(tzinfo=v.tzinfo), _dt.datetime.now().replace(tzinfo=v.tzinfo)
+        slack = _dt.timedelta(milliseconds=200)
+        if abs(v - fake_v) < slack:
+            return fake_v
+        d = v - real_v
+        if abs(d) < slack:
+            return fake_v
+        ms = _dt.timedelta(milliseconds=round(d / _dt.timedelta(milliseconds=1)))
+        return fake_v + ms
 
     def extract(self, ctx):
         text, facts = e3_lysosome.extract(REPO)
@@ -414,8 +441,10 @@ class C13(Prop):
                 r = rng.random()
                 if r < 0.55:
                     ops.append(f"ingest,{rng.choice(TYPES)},{nid},{rng.choice([0, 1, 2, 3])}")
-                elif r < 0.85:
+                elif r < 0.80:
                     ops.append(f"digest,{rng.choice(['none', 1, 2, 0])}")
+                elif r < 0.88:
+                    ops.append(f"prune,{nid},{rng.choice([1, 2])}")      # the daemon's cycle on one of the threads
                 else:
                     ops.append("autophagy")
             progs.append(";".join(ops))
@@ -494,7 +523,7 @@ class C13(Prop):
         L = self.L
         mq, at, ret, modes, tox, ontox = int(t[1]), int(t[2]), int(t[3]), t[4], t[5], t[6]
         ctx = {"mq": mq, "at": at, "modes": modes, "tox": tox, "ontox": ontox, "toxlog": [], "calls": [],
-               "seq": 0, "rep": 0, "exp": 0, "dead": False, "types": {}, "in_client": None, "client_ingests": []}
+               "seq": 0, "rep": 0, "exp": 0, "dead": False, "types": {}, "in_client": {}, "client_ingests": []}
         WT = L.WasteType
         order = [WT.MISFOLDED_PROTEIN, WT.EXPIRED_CACHE, WT.FAILED_OPERATION, WT.ORPHANED_RESOURCE, WT.TOXIC_BYPRODUCT]
         ctx["order"] = order
@@ -552,19 +581,24 @@ class C13(Prop):
             # waste that one of the library's own callers (the AutophagyDaemon in check_and_prune) hands over gets the
             # harness's tag and is counted; NOTHING else about it is touched (its created_at, priority, ... are what
             # that caller made them)
-            if not hasattr(waste, "vf") and ctx.get("in_client") is not None:
+            me = threading.get_ident()
+            if not hasattr(waste, "vf") and me in ctx["in_client"]:
                 seq = ctx["seq"]
                 try:
-                    waste.vf = (seq, ctx["in_client"])
+                    waste.vf = (seq, ctx["in_client"][me])
                     ty = TYPES[order.index(waste.waste_type)]
                 except Exception:  # noqa
                     ty = "?"
                 ctx["types"][seq] = ty
-                ctx.setdefault("ids", {})[seq] = ctx["in_client"]
+                ctx.setdefault("ids", {})[seq] = ctx["in_client"][me]
                 ctx["client_ingests"].append(ty)
                 ctx["seq"] += 1
             return orig(waste)
         lys.ingest = ingest_tagging
+        # a second lysosome alive next to the one under test, holding one item: nothing done to the first may show here
+        by = L.Lysosome(max_queue_size=1000, auto_digest_threshold=1000, silent=True)
+        by.ingest(L.Waste(WT.EXPIRED_CACHE, {"bystander": True}, created_at=self.clock.now()))
+        ctx["bystander"] = by
         ctx["reentrant"] = "RLock" in type(lys._lock).__name__
         ctx["lockev"] = []
         lys._lock = TraceLock(lys._lock, ctx["lockev"])
@@ -641,11 +675,11 @@ class C13(Prop):
                 daemons[i % 2] = self.AD.AutophagyDaemon(histone_store=HistoneStore(silent=True), lysosome=lys,
                                                          summarizer=lambda text: text[:40], silent=ctx["silent"])
             context = "\n".join(f"step {k}: did something useful with the data" for k in range(120 if pruning else 2))
-            ctx["in_client"] = i
+            ctx["in_client"][threading.get_ident()] = i
             try:
                 daemons[i % 2].check_and_prune(context, 1500 if mode == 2 else 8000, force=mode in (1, 3))
             finally:
-                ctx["in_client"] = None
+                del ctx["in_client"][threading.get_ident()]
             return "ok"
         if op == "digest":
             k = None if t[1] == "none" else int(t[1])
@@ -734,6 +768,10 @@ class C13(Prop):
                 "dig": st["total_digested"], "rep": ctx["rep"], "auto": auto, "em": em, "exp": ctx["exp"],
                 "bin": sorted(self._kv(k, v) for k, v in lys.get_recycled().items()),
                 "tox": list(ctx["toxlog"]), "calls": list(ctx["calls"])}
+        by = ctx["bystander"]
+        bs = by.get_statistics()
+        snap["bystander"] = (bs["queue_size"], bs["total_ingested"], bs["total_digested"], bs["recycling_bin_size"],
+                             by.max_queue_size, by.auto_digest_threshold, by.on_toxic is None)
         return s, snap
 
     def _timeout(self):
@@ -911,6 +949,8 @@ class C13(Prop):
                 op = cur[ev[1]]
                 if op[0] == "ingest":
                     acts.append(f"I,{op[1]},{op[2]},{op[3]}")
+                elif op[0] == "prune":
+                    acts.append(f"I,exp,{op[1]},1")
                 elif op[0] == "digest":
                     acts.append(f"P,{ev[1]},{op[1]}")
                 elif op[0] == "autophagy":
@@ -1022,6 +1062,9 @@ class C13(Prop):
                     f"{snap['auto']} + emergency-logged {snap['em']} + expired {snap['exp']} = {total}", idx))
             if len(set(snap["qseq"])) != len(snap["qseq"]):
                 out.append(Violation("fate_partition", "an item is queued once", f"queue seqs {snap['qseq']}", idx))
+            if snap.get("bystander", (1, 1, 0, 0, 1000, 1000, True)) != (1, 1, 0, 0, 1000, 1000, True):
+                out.append(Violation("fate_partition", "a second lysosome alive (one item queued, nothing else ever "
+                                     "done to it) keeps exactly that item", f"{snap['bystander']}", idx))
             # per-item: who left the queue during this call, and how
             now = set(snap["qseq"])
             new_items = set(range(n_ing)) - set(queued) - expired - set(processed)
